@@ -17,7 +17,7 @@ pub fn spec() -> CheckSpec {
     ],
     real_components: "deno_graph builder, ModuleEntryIterator, ModuleGraphErrorIterator::check_resolution, ModuleGraph::valid",
     stub_components: "all seams simulated",
-    quick_cases: 3000,
+    quick_cases: 8000,
     thorough_cases: 150000,
     run_case: |t, tier, p| {
       let mut out = crate::checks::c15::run_case_for(t, tier, p, "C02");
